@@ -74,9 +74,12 @@ class C05(MergeFamProp):
                 return f'unwrapped sequence builds but the wrapped one fails: {json.dumps({k: v for k, v in w.items() if k != "log"})[:200]}'
             inner = unwrap_val(w['ok'], keys)
             # an empty result is a special case of Config (empty mapping is falsy): wrapped {} is still {k: {}}
-            if inner is None:
+            root_del = any((d['raw'].get('kw') or {}).get('del') is True for d in case['docs'])
+            if inner is None and root_del and strip_ids(base['ok']) == {'d': []}:
+                inner = None      # the remove-this-key idiom on a document root: a root cannot remove itself, a wrapped key can (C05_wrap states both cases)
+            elif inner is None:
                 return f'wrapped result is not the unwrapped result under {keys}: {json.dumps(strip_ids(w["ok"]))[:200]}'
-            d = first_diff(strip_ids(base['ok']), strip_ids(inner))
+            d = first_diff(strip_ids(base['ok']), strip_ids(inner)) if inner is not None else None
             if d:
                 return f'wrapping under {keys} changed the merged content: ' + d
         else:
